@@ -4,7 +4,7 @@
    cells; tau relocates labels and pointer targets (inclusive at the insertion point iff ge).
    Tied to src/bin_archive.rs, src/bin_streams.rs by `./check C03`. *)
 From Coq Require Import List NArith ZArith Bool.
-From Mila Require Import Lib.Bytes Lib.Machine Model.BinArchive Model.BinStreams Proofs.AMapLemmas Proofs.BinAccess Proofs.BinRelocate Proofs.BinInvariant.
+From Mila Require Import Lib.Bytes Lib.Machine Model.BinArchive Model.BinStreams Proofs.AMapLemmas Proofs.BinAccess Proofs.BinRelocate Proofs.BinInvariant Proofs.BinKeysInvariant.
 Import ListNotations.
 Local Open Scope N_scope.
 
@@ -29,22 +29,27 @@ Theorem C03_allocate_never_panics : forall a addr n ge k, allocate a addr n ge <
 Proof. exact allocate_never_panics. Qed.
 
 (* "rejected and the archive unchanged" as a statement that can fail: [allocate_m m] (Model/BinArchive.v) is allocate in the
-   statement order of the code - checks, splice of the data, then the relocation of the maps with usize additions [add_w 64] in
-   profile m (Checked: overflow panics, Wrapping: wraps) - and returns the outcome TOGETHER WITH the archive `&mut self` is left
-   with (after a panic in the relocation: the half-relocated one).  For both profiles it equals the functional [allocate]: no
-   panic, no wrapped target, and whenever the result is not Ok the archive is the one passed in.  (Without the representability
-   check this is false: BinRelocate.allocate_apply_unchecked_panics is the input of finding F24.)
+   statement order of the code - checks, splice of the data, then the relocation of the maps with EVERY usize addition (cells,
+   label addresses, c-string cells, pointer targets) as [add_w 64] in profile m (Checked: overflow panics, Wrapping: wraps) - and
+   returns the outcome TOGETHER WITH the archive `&mut self` is left with (after a panic in the relocation: the half-relocated
+   one).  For both profiles it equals the functional [allocate]: no panic, no wrapped value, and whenever the result is not Ok
+   the archive is the one passed in.  Hypothesis [keys_le_size a]: every annotation key is <= size a - true after EVERY history
+   of API calls, aligned or not, accepted or rejected (C03_keys_invariant).  (Without the representability check the statement
+   is false: BinRelocate.allocate_apply_unchecked_panics is the input of finding F24.)
    deallocate / truncate: every `?` precedes the first mutation in the code and the remaining arithmetic cannot fail
    (C03_deallocate_subtractions_exact), so there "unchanged" is carried by the outcome type and tied to the code by leg K,
    which compares the full state after every rejected operation. *)
+Theorem C03_keys_invariant : forall e ops, keys_le_size (fold_left bstep ops (ba_new e)).
+Proof. exact history_keys_invariant. Qed.
 Theorem C03_allocate_steps_agree : forall m a addr n ge,
+  keys_le_size a ->
   allocate_m m a addr n ge =
     match allocate a addr n ge with Ok a' => (Ok tt, a') | Err e => (Err e, a) | Panic k => (Panic k, a) end.
 Proof. exact allocate_m_is_allocate. Qed.
 Theorem C03_allocate_failure_unchanged : forall m a addr n ge,
-  fst (allocate_m m a addr n ge) <> Ok tt -> snd (allocate_m m a addr n ge) = a.
+  keys_le_size a -> fst (allocate_m m a addr n ge) <> Ok tt -> snd (allocate_m m a addr n ge) = a.
 Proof. exact allocate_m_failure_unchanged. Qed.
-Theorem C03_allocate_steps_never_panic : forall m a addr n ge k, fst (allocate_m m a addr n ge) <> Panic k.
+Theorem C03_allocate_steps_never_panic : forall m a addr n ge k, keys_le_size a -> fst (allocate_m m a addr n ge) <> Panic k.
 Proof. exact allocate_m_never_panics. Qed.
 (* the relocated targets are usize values again; on archives whose cells lie inside the data (C03_invariant) so are all keys *)
 Theorem C03_allocate_targets_usize : forall a addr n ge a',
